@@ -337,7 +337,7 @@ Proof.
         -- rewrite (D2 e) in A by (rewrite Hp; reflexivity). discriminate.
 Qed.
 
-Lemma invL_init progs : invL (init progs).
+Lemma invL_init g progs : invL (init_g g progs).
 Proof.
   split.
   - intros t th e H Hp. cbn in H. rewrite nth_error_map in H. destruct (nth_error progs t); inversion H; subst.
@@ -345,7 +345,7 @@ Proof.
   - intros st q H. destruct H.
 Qed.
 
-Lemma stmt_noerr_init progs : stmt_noerr (init progs).
+Lemma stmt_noerr_init g progs : stmt_noerr (init_g g progs).
 Proof. intros e st H. unfold ent in H. cbn in H. destruct e; discriminate. Qed.
 
 Lemma invL_reach progs s : reach progs s -> s_stolen s = false -> invL s.
@@ -353,7 +353,7 @@ Proof.
   intro Hr.
   assert (G : (invC s /\ invD s) /\ stmt_noerr s /\ (s_stolen s = false -> invL s)).
   { revert s Hr. apply (reach_ind progs (fun s => (invC s /\ invD s) /\ stmt_noerr s /\ (s_stolen s = false -> invL s))).
-    - split; [split; [apply invC_init|apply invD_init]|]. split; [apply stmt_noerr_init|]. intros _. apply invL_init.
+    - intro g. split; [split; [apply invC_init|apply invD_init]|]. split; [apply stmt_noerr_init|]. intros _. apply invL_init.
     - intros s0 t c s1 [[IC ID] [SN IL]] H. apply step_inv in H. destruct H as [th [l [Ht Hs]]].
       split; [split; [eapply invC_step|eapply invD_step]; eauto|].
       split; [eapply stmt_noerr_step; eauto|].
